@@ -83,6 +83,28 @@ CHECKS = {
    tech="round-trip PBT (generate -> parse -> validate -> mutate)", ref="DESIGN.md 5/C19"),
 }
 
+# stages added in the later seeding rounds (d-f), appended to the texts above
+EXTRA = {
+ "C02": " Further stages: 'values' (a value site x status vectors of 1-3 values), 'named-clauses' (R / not R / f(k) / not f(k) x forced status x `or` companions), 'multi-document' (the record of each document of a batch).",
+ "C04": " Stage 'duplicate-names': a rule name defined twice; the other rules are reordered around the two definitions, which keep their order (their exchange is known finding F50). Capture idiom with a second capture variable and with names colliding with a `let`.",
+ "C05": " Numeric ties in rulegen templates, `-o FILE` modes with a pre-existing file, stage 'environment' (TZ incl. POSIX strings, HOME, LANG, cwd; stderr compared too).",
+ "C06": " Non-UTF-8 and comment-only rules files, same base names in a directory each, rule names defined twice with mismatching expectations.",
+ "C07": " Stages 'multi-data' and 'duplicate-names'; multi-file cases with equal base names; values with markup and control characters (the JUnit text must consist of XML 1.0 characters).",
+ "C08": " Stage 'framing' (comments / blank lines around a text do not decide acceptance), stage 'test-specs' (2-3 spec files of 7 kinds x 4 formats), generated self-reference cycles, key filters whose right-hand side is a variable resolving to no / one / several values, huge list indices.",
+ "C09": " Cause paths: every message listed under a rule belongs to a clause that failed on a FAIL path of that rule, and every such clause with a message is listed (two-way).",
+ "C11": " Negatives include tagged scalars in key position, duplicate keys and multi-document streams; exact floats written in several spellings.",
+ "C12": " JUnit: each <testsuite> of a batch equals the one of validating that data file alone (times masked) and the totals are the sums.",
+ "C13": " Universe includes i64::MAX-1 and the neighbours of 2^53; brace quantifiers in the regex generator and matcher.",
+ "C14": " Comments and line breaks also after `[` / `name |` and before `]` of filters, key filters and key captures, comment lines between filter clauses; block lets, variable-only blocks, documents without resources.",
+ "C15": " Literals in the condition of an inner `when` block abstracted to rule / file level, optionally with a `let` of the same name inside the guarded block; stage 'mixed-projections'.",
+ "C16": " Library statuses are cross-checked against `validate --payload --structured`; CloudFormation-shaped inputs with the key-capture idiom.",
+ "C17": " Stage 'raw-scalars' (26 spellings on which YAML versions disagree, in a parameter file and in the data, vs the concatenated text); rules that walk the merged root as a whole; two data files per structured run.",
+ "C18": " substring offsets are also taken from the document (negative, whole and huge floats, i64::MIN).",
+ "C19": " Property values include floats (plain, with positive / negative exponent, negative: a diagnostic and no rules is accepted there).",
+}
+for k, v in EXTRA.items():
+    CHECKS[k]["text"] += v
+
 ALL = [json.loads(l) for l in open('/verif/properties.jsonl')]
 NA_REASON = "check under construction in this session (not yet registered)"
 
